@@ -1,8 +1,55 @@
-//! C16 — not built yet.
+//! C16 — seeded expansion is reproducible, draws are fresh, samples are well-formed.
+//!
+//! E1 sections:
+//!  (a) `stream_chunks`   chunkings of the byte stream by `fill_bytes` == one big read == blake3 recomputation
+//!      `stream_words`    interleavings of next_u32 / next_u64 / fill_bytes against the cursor specification
+//!      `stream_blocks`   first 2^12 blocks per seed distinct and equal to the recomputation; seeds differ
+//!  (b) `fresh_histories` all histories of length <= 3 over 9 randomised operations per scheme (hook H1)
+//!      `explicit_state`  the *_with_u_prng entry points: same generator state => same mask, different error
+//!  (c) `cbd`, `cbd_small_moduli`, `ternary`, `uniform`   samplers as functions of scripted generator output
+
 use crate::engine::*;
+use std::time::Duration;
 
-pub fn describe(_rep: &Report) {}
+#[path = "c16_fresh.rs"]
+pub mod fresh;
+#[path = "c16_samplers.rs"]
+pub mod samplers;
+#[path = "c16_stream.rs"]
+pub mod stream;
 
-pub fn sections(_cfg: &RunCfg) -> Vec<Box<dyn AnySection>> {
-    vec![]
+pub fn describe(rep: &Report) {
+    rep.set_rule(
+        "stream: case = (seed, family of chunkings | start offset + operation depth | block count), every chunking / operation \
+         sequence of the family is executed on a fresh generator and compared read by read with blake3(seed||counter_le).xof(4096) \
+         recomputed by the harness; non-trivial = a read crossed a 4096-byte refill resp. a word read skipped bytes. \
+         freshness: case = (parameter set, history of <= 3 operations, save_seed); all mask polynomials (per RNS component), stored \
+         seeds and secret keys of all produced objects must be pairwise distinct. samplers: case = (moduli, slice of the scripted \
+         generator outputs); every coefficient is compared with the reference map in every RNS component.",
+    );
+    rep.assume("the `blake3` crate used by the harness is the reference for the hash itself (the subject uses the same crate; the check ties the stream to its definition, not blake3 to its specification)");
+    rep.assume("chunk-independence for ALL compositions follows from the enumerated ones only if the generator state is a function of (seed, bytes consumed); the (offset, chunk) transition family covers every such state up to the limit");
+    rep.assume("word reads are little-endian: next_u32/next_u64 read the buffer in native byte order, so on a big-endian machine seeded expansion would differ (not observable on this host)");
+    rep.assume("freshness is checked under the scripted entropy of hook H1 (k-th generator seeded by blake3(base||k)); the OS entropy path (ChaCha20Rng::from_entropy) itself is not exercised");
+    rep.assume("uniform sampler: the accept/reject rule is compared with the unbiased rule on scripted draws (lattice of top-bit patterns, all rejected remainders for small moduli, windows around every boundary); exact uniformity over all 2^64 draws follows from the rule, not from enumeration");
+    if let Err(e) = crate::refmodel::blakestream::selfcheck() {
+        rep.machinery_error(format!("C16 reference self-check failed: {e}"));
+    }
+}
+
+pub fn sections(cfg: &RunCfg) -> Vec<Box<dyn AnySection>> {
+    let thorough = cfg.thorough();
+    let seed = cfg.seed;
+    let mut v: Vec<Box<dyn AnySection>> = vec![];
+
+    let (cases, bound) = stream::chunk_cases(thorough);
+    v.push(E1::new("stream_chunks", &bound, cases.into_iter(), stream::check_chunks).deadline(Duration::from_secs(120)));
+    let (cases, bound) = stream::word_cases(thorough);
+    v.push(E1::new("stream_words", &bound, cases.into_iter(), stream::check_words).deadline(Duration::from_secs(120)));
+    let (cases, bound) = stream::block_cases(thorough);
+    v.push(E1::new("stream_blocks", &bound, cases.into_iter(), stream::check_blocks).deadline(Duration::from_secs(60)));
+
+    v.extend(fresh::sections(thorough, seed));
+    v.extend(samplers::sections(thorough));
+    v
 }
